@@ -69,8 +69,8 @@ func (s *Store) ProposeCommand(req *pb.RaftCmdRequest) (*pb.RaftCmdResponse, err
 	if req.Header.RequestId == 0 {
 		req.Header.RequestId = s.command.nextProposalID(term)
 	}
-	id := req.Header.RequestId
-	prop, err := s.command.registerProposal(id)
+	id, regionID := req.Header.RequestId, req.Header.GetRegionId()
+	prop, err := s.command.registerRegionProposal(regionID, id)
 	if err != nil {
 		return nil, err
 	}
@@ -78,7 +78,7 @@ func (s *Store) ProposeCommand(req *pb.RaftCmdRequest) (*pb.RaftCmdResponse, err
 		return nil, fmt.Errorf("raftstore: command pipeline unavailable")
 	}
 	if err := s.router.SendCommand(peer.ID(), req); err != nil {
-		s.command.removeProposal(id)
+		s.command.removeRegionProposal(regionID, id)
 		return nil, err
 	}
 	timer := time.NewTimer(s.commandTimeout)
@@ -93,7 +93,7 @@ func (s *Store) ProposeCommand(req *pb.RaftCmdRequest) (*pb.RaftCmdResponse, err
 		}
 		return result.resp, nil
 	case <-timer.C:
-		s.command.removeProposal(id)
+		s.command.removeRegionProposal(regionID, id)
 		return nil, fmt.Errorf("raftstore: command %d timed out", id)
 	}
 }
